@@ -75,6 +75,7 @@ package connectconformance
 //@      has(r.outcomes, testCases[i].Request.TestName) && r.outcomes[testCases[i].Request.TestName].setupError &&
 //@      r.outcomes[testCases[i].Request.TestName].actualFailure == err
 //@   loop 0: invariant held[r.mu] && r.outcomes != nil
+//@           invariant forall k string :: atpre(r.outcomes != nil && has(r.outcomes, k)) ==> has(r.outcomes, k)
 //@           invariant forall i int :: 0 <= i && i <= rangeindex ==>
 //@      has(r.outcomes, testCases[i].Request.TestName) && r.outcomes[testCases[i].Request.TestName].setupError &&
 //@      r.outcomes[testCases[i].Request.TestName].actualFailure == err
@@ -88,6 +89,7 @@ package connectconformance
 //@   ensures @kept forall k string :: old(r.outcomes != nil && has(r.outcomes, k)) ==> has(r.outcomes, k)
 //@   ensures forall i int :: 0 <= i && i < len(testCases) ==> has(r.outcomes, testCases[i].Request.TestName)
 //@   loop 0: invariant held[r.mu] && r.outcomes != nil
+//@           invariant forall k string :: atpre(r.outcomes != nil && has(r.outcomes, k)) ==> has(r.outcomes, k)
 //@           invariant forall i int :: 0 <= i && i <= rangeindex ==> has(r.outcomes, testCases[i].Request.TestName)
 
 // Peer feedback is merged before reporting: every case with feedback ends up with a
